@@ -173,7 +173,7 @@ func refRandDB(tag uint64) []byte {
 				dl = -1
 			}
 			if dl < 0 {
-				c := Pool()[r.Intn(poolSize-1)].CertDER // every entry of a list has the size of the first
+				c := Pool()[r.Intn(18)].CertDER // (not the 70 KB one) every entry of a list has the size of the first
 				dl = len(c)
 				for i := 0; i < cnt; i++ {
 					l.Sigs = append(l.Sigs, RefSig{Owner: owner(i), Data: c})
